@@ -1,123 +1,111 @@
 import GdcVerif.Model.JpegAddr
 import GdcVerif.Lemmas.JpegAddr
+import GdcVerif.Lemmas.JpegAddrFull
 /-!
-  C15 — JPEG DCT streams and decoders agree with an independent implementation.  PARTIAL, with a DEFECT.
+  C15 — JPEG DCT streams and decoders agree with an independent implementation.  PARTIAL.
 
-  What a theorem can carry here is the decoder's *addressing logic* (exact): which data unit each pixel shows.
-  Numeric agreement with image/jpeg within 2 (6) grey levels is differential testing — SEARCHED, not proved.
+  What a theorem can carry here is the decoder's *addressing and scan-structure logic* (exact).  Numeric
+  agreement with image/jpeg within 2 (6) grey levels is differential testing — SEARCHED, not proved.
 
-  * `c15_addressing_FullStatement` (every pixel shows the data unit T.81 A.1.1/A.2.3 assigns to it) is FALSE for
-    the code as it is: `comp.width = ⌈w·H/(8·maxH)⌉` can be smaller than the `mcuCols·H` blocks per row the
-    scan walk produces, so block (comp.width, y) is stored on top of block (0, y+1).
-    `c15_addressing_counterexample` proves it on 17×16 4:2:0 (`decide`); the harness confirms it on the real
-    decoder through the public API (`jpg-cellmap`, and the image/jpeg comparison).
-  * `c15_addressing_partial`: under `comp.width = mcuCols·H` (all 4:4:4 and grey frames; subsampled frames whose
-    width fills the last MCU) the walk is injective on offsets, stays inside `comp.data`, and every pixel reads
-    inside the data unit the standard designates, which is in the walk and is not skipped.
-  * `c15_addressing_repaired`: with the proposed repair (`comp.width = mcuCols·H`, `comp.height = mcuRows·V`)
-    the same holds for every frame.
-  * restart markers: the scan collection keeps the entropy-coded bytes and drops exactly the RSTn markers;
-    the Gray.Pix copy of DecodeSimple is tightly packed iff width and height are multiples of 8.
+  Proved for the code at /repo HEAD (after fixes 2d44354, 4dc30ed, 5946dc5), at full strength:
+  * `c15_addressing`: for EVERY frame size, sampling factors and pixel the baseline decoder shows the data unit
+    T.81 A.1.1/A.2.3 designates (walk, blockOffset, skip rule, convertToPixels — code-shaped model tied to
+    baseline.Decode by `jpg-cellmap`).  The pre-fix model is kept as `shownOld` with its witness
+    (regression anchor: `c15_block_alias_regression`).
+  * `c15_restart_intervals`: the scan collection cuts the entropy-coded data exactly at the RSTn markers (and
+    nowhere else), without DRI behaves as before, and the MCU loop switches interval / resets the DC predictors
+    exactly before MCUs Ri, 2Ri, … (T.81 E.1.4).
+  * `c15_repack_tight`: DecodeSimple's grey row copy reads inside Pix and fills width·height samples bijectively.
 -/
 namespace JpegAddr
 set_option maxRecDepth 100000
 
-/-- the witness frame: 17×16, Y 2×2, Cb 1×1, Cr 1×1 -/
+/-- the frame on which the pre-fix decoder failed: 17×16, Y 2×2, Cb 1×1, Cr 1×1 -/
 def witness : Frame := { w := 17, h := 16, comps := [⟨2, 2⟩, ⟨1, 1⟩, ⟨1, 1⟩] }
 
-/-- Full statement (EXPECTED FALSE on the unchanged code): every pixel shows the designated data unit -/
-def c15_addressing_FullStatement : Prop :=
-  ∀ (f : Frame), validFrame f = true → (∀ c ∈ f.comps, maxH f % c.H = 0 ∧ maxV f % c.V = 0) →
-    (∀ c0 ∈ f.comps.head?, c0.H = maxH f ∧ c0.V = maxV f) →
-    ∀ c ∈ f.comps, ∀ x y, x < f.w → y < f.h → shown f c x y = (specOrdinal f c x y : Int)
+/-- (1) FULL addressing theorem: every pixel shows the designated data unit — no hypothesis on width, height,
+    divisibility of sampling factors or component order -/
+theorem c15_addressing (f : Frame) (c : Comp) (hH : 0 < c.H) (hV : 0 < c.V)
+    (x y : Nat) (hx : x < f.w) (hy : y < f.h) :
+    shown f c x y = (specOrdinal f c x y : Int) := shown_eq_spec f c hH hV x y hx hy
 
-/-- the scan walk stores block (3,0) — a padding data unit of the second MCU — at the offset of block (0,1),
-    which was decoded before it; pixel (0,8) therefore shows data unit 5 instead of data unit 2 -/
-theorem c15_addressing_counterexample :
-    let c : Comp := ⟨2, 2⟩
-    validFrame witness = true ∧ compWidth witness c = 3 ∧ mcuCols witness * c.H = 4 ∧
-    (3, 0) ∈ walk witness c ∧ (0, 1) ∈ walk witness c ∧
-    writeOffset (compWidth witness c) (dataLen witness c) (3, 0) = some 192 ∧
-    writeOffset (compWidth witness c) (dataLen witness c) (0, 1) = some 192 ∧
-    shown witness c 0 8 = 5 ∧ specOrdinal witness c 0 8 = 2 ∧
-    shownRepaired witness c 0 8 = 2 := by decide
-
-theorem c15_addressing_FullStatement_false : ¬ c15_addressing_FullStatement := by
-  intro h
-  have := h witness (by decide) (by decide) (by decide) ⟨2, 2⟩ (by decide) 0 8 (by decide) (by decide)
-  revert this; decide
-
-/-- PARTIAL (the code as it is): if the component buffer is as wide as the walk (`comp.width = mcuCols·H`), then
-    (a) distinct blocks of the walk have distinct offsets, (b) a block that is written lies inside comp.data,
-    (c) for every pixel the address convertToPixels reads lies inside the data unit T.81 designates, that unit
-        is in the walk and is not skipped.
-    Missing for the full statement: nothing under this hypothesis except the list-level step "last writer of a
-    uniquely written address is that block" (evaluated by the driver on every correspondence case);
-    without the hypothesis the statement is false (see the counterexample). -/
-theorem c15_addressing_partial (f : Frame) (c : Comp) (hH : 0 < c.H) (hV : 0 < c.V)
-    (hcw : compWidth f c = mcuCols f * c.H) :
-    (∀ b ∈ walk f c, ∀ b' ∈ walk f c, blockOffset (compWidth f c) b.1 b.2 = blockOffset (compWidth f c) b'.1 b'.2 → b = b') ∧
-    (∀ b off, writeOffset (compWidth f c) (dataLen f c) b = some off → off + 64 ≤ dataLen f c) ∧
-    (∀ x y, x < f.w → y < f.h → 0 < maxH f → 0 < maxV f →
-      let bx := x * c.H / maxH f / 8
-      let by' := y * c.V / maxV f / 8
-      bx < compWidth f c ∧ by' < compHeight f c ∧ (bx, by') ∈ walk f c ∧
-      writeOffset (compWidth f c) (dataLen f c) (bx, by') = some (blockOffset (compWidth f c) bx by')) := by
-  refine ⟨?_, ?_, ?_⟩
-  · intro b hb b' hb' he
-    have h1 := (mem_walk_bounds f c b hb).1
-    have h2 := (mem_walk_bounds f c b' hb').1
-    rw [← hcw] at h1 h2
-    have := offset_inj _ _ _ _ _ h1 h2 he
-    exact Prod.ext this.1 this.2
-  · intro b off h
-    simp only [writeOffset] at h
-    split at h
-    · cases h
-    · cases h; omega
-  · intro x y hx hy hmh hmv bx by'
-    have hbx : bx < compWidth f c := by
-      simp only [bx, compWidth, Nat.div_div_eq_div_mul]
-      exact div_lt_divCeil _ _ _ (by omega) (Nat.mul_lt_mul_of_pos_right hx hH)
-    have hby : by' < compHeight f c := by
-      simp only [by', compHeight, Nat.div_div_eq_div_mul]
-      exact div_lt_divCeil _ _ _ (by omega) (Nat.mul_lt_mul_of_pos_right hy hV)
-    have hch : compHeight f c ≤ mcuRows f * c.V := by
-      simp only [compHeight, mcuRows]; exact divCeil_mul_le _ _ _ (by omega)
-    refine ⟨hbx, hby, walk_mem_of_bounds f c bx by' hH hV (by rw [← hcw]; exact hbx) (by omega), ?_⟩
-    exact writeOffset_some _ _ (bx, by') (inblock_lt (compWidth f c) (compHeight f c) bx by' hbx hby 63 (by omega))
-
-/-- REPAIR: with `comp.width := mcuCols·H`, `comp.height := mcuRows·V` (whole MCUs, as libjpeg allocates) offsets are
-    injective on the whole walk and no block of the walk is skipped — for every frame and sampling factors -/
-theorem c15_addressing_repaired (f : Frame) (c : Comp) :
-    let cw := mcuCols f * c.H
-    let ch := mcuRows f * c.V
-    (∀ b ∈ walk f c, ∀ b' ∈ walk f c, blockOffset cw b.1 b.2 = blockOffset cw b'.1 b'.2 → b = b') ∧
-    (∀ b ∈ walk f c, writeOffset cw (cw * ch * 64) b = some (blockOffset cw b.1 b.2)) := by
-  intro cw ch
+/-- (1') the walk's offsets are injective, and no block of the walk is skipped (all of them fit comp.data) -/
+theorem c15_walk_injective_in_bounds (f : Frame) (c : Comp) :
+    (∀ b ∈ walk f c, ∀ b' ∈ walk f c,
+        blockOffset (compWidth f c) b.1 b.2 = blockOffset (compWidth f c) b'.1 b'.2 → b = b') ∧
+    (∀ b ∈ walk f c, writeOffset (compWidth f c) (dataLen f c) b = some (blockOffset (compWidth f c) b.1 b.2) ∧
+        blockOffset (compWidth f c) b.1 b.2 + 64 ≤ dataLen f c) := by
   constructor
   · intro b hb b' hb' he
     have := offset_inj _ _ _ _ _ (mem_walk_bounds f c b hb).1 (mem_walk_bounds f c b' hb').1 he
     exact Prod.ext this.1 this.2
   · intro b hb
     have hbd := mem_walk_bounds f c b hb
-    exact writeOffset_some _ _ b (inblock_lt cw ch b.1 b.2 hbd.1 hbd.2 63 (by omega))
-example : (walk witness ⟨2, 2⟩).length = 8 ∧ compWidth witness ⟨1, 1⟩ = mcuCols witness * 1 := by decide
+    have := inblock_lt (compWidth f c) (compHeight f c) b.1 b.2 hbd.1 hbd.2 63 (by omega)
+    exact ⟨writeOffset_some _ _ b this, by simp only [dataLen]; omega⟩
 
-/-- restart markers: for entropy-coded data `pre` in which every FF is stuffed, followed by a restart marker,
-    the collected scan is `pre` followed by the collection of the rest — RSTn removed, nothing else; any other
-    marker ends the scan -/
-theorem c15_scan_filter_rst (pre rest : List Nat) (k : Nat) (hk : k < 8)
+/-- regression anchor of finding c15-baseline-dec-block-alias (fixed by 2d44354): on the witness frame the
+    pre-fix geometry stored block (3,0) over block (0,1) and pixel (0,8) showed data unit 5; the current code
+    shows data unit 2, as T.81 designates -/
+theorem c15_block_alias_regression :
+    let c : Comp := ⟨2, 2⟩
+    compWidthOld witness c = 3 ∧ mcuCols witness * c.H = 4 ∧
+    writeOffset (compWidthOld witness c) (dataLenOld witness c) (3, 0) = some 192 ∧
+    writeOffset (compWidthOld witness c) (dataLenOld witness c) (0, 1) = some 192 ∧
+    shownOld witness c 0 8 = 5 ∧ specOrdinal witness c 0 8 = 2 ∧ shown witness c 0 8 = 2 := by decide
+example : validFrame witness = true ∧ (walk witness ⟨2, 2⟩).length = 8 ∧ shown witness ⟨1, 1⟩ 16 15 = 1 := by decide
+
+/-- (2) restart intervals: for entropy-coded data `pre` in which every FF is stuffed,
+    * `pre ++ RSTk ++ rest` closes the current interval with exactly `cur ++ pre` and starts an empty one;
+    * `pre ++ (any other marker)` ends the scan with `cur ++ pre` as the last interval;
+    * without DRI the joined intervals are the pre-fix scan filter (RSTn dropped, nothing else);
+    * MCU n (0-based) is decoded from interval ⌊n/Ri⌋ and the DC predictors are reset exactly when Ri | n, n > 0 -/
+theorem c15_restart_intervals (pre rest cur : List Nat) (acc : List (List Nat)) (k : Nat) (hk : k < 8)
     (hw : wellStuffed pre = true) (hne : ∀ b ∈ pre.getLast?, b ≠ 0xFF) :
-    scanFilter (pre ++ 0xFF :: (0xD0 + k) :: rest) = pre ++ scanFilter rest ∧
-    scanFilter (pre ++ 0xFF :: 0xD9 :: rest) = pre := by
-  rw [scanFilter_prefix pre _ hw hne, scanFilter_prefix pre _ hw hne, sf_rst k rest hk, sf_eoi]
-  simp
-example : scanFilter [0x12, 0xFF, 0x00, 0x34, 0xFF, 0xD3, 0x56, 0xFF, 0xD9, 0x99] = [0x12, 0xFF, 0x00, 0x34, 0x56] := by decide
+    scanSplitAux (pre ++ 0xFF :: (0xD0 + k) :: rest) cur acc = scanSplitAux rest [] (acc ++ [cur ++ pre]) ∧
+    scanSplitAux (pre ++ 0xFF :: 0xD9 :: rest) cur acc = acc ++ [cur ++ pre] ∧
+    (∀ s, scanIntervals 0 s = [scanFilter s]) ∧
+    (∀ ri n, 0 < ri → (mcuInterval ri n).1 = n / ri ∧ ((mcuInterval ri n).2 = true ↔ (0 < n ∧ n % ri = 0))) := by
+  have h1 : isRST (0xD0 + k) = true := by simp [isRST]; omega
+  have h2 : ¬ (0xD0 + k = 0) := by omega
+  refine ⟨?_, ?_, ?_, fun ri n h => mcuInterval_spec ri h n⟩
+  · rw [scanSplit_prefix pre _ cur acc hw hne (by simp)]
+    rw [scanSplitAux]; simp only [if_true, h2, if_false, h1]
+  · rw [scanSplit_prefix pre _ cur acc hw hne (by simp)]
+    rw [scanSplitAux]; simp [isRST]
+  · intro s
+    simp only [scanIntervals, if_true]
+    rw [scanSplit_flatten]; simp
+example : scanIntervals 2 [0x12, 0xFF, 0x00, 0x34, 0xFF, 0xD3, 0x56, 0xFF, 0xD9, 0x99] = [[0x12, 0xFF, 0x00, 0x34], [0x56]] ∧
+    scanIntervals 0 [0x12, 0xFF, 0x00, 0x34, 0xFF, 0xD3, 0x56, 0xFF, 0xD9, 0x99] = [[0x12, 0xFF, 0x00, 0x34, 0x56]] ∧
+    mcuInterval 3 7 = (2, false) ∧ mcuInterval 3 6 = (2, true) := by decide
 
-/-- DecodeSimple's Gray.Pix copy returns width·height samples only when both are multiples of 8 -/
-theorem c15_repack_tight_iff (w h : Nat) (hw : 0 < w) (hh : 0 < h) :
-    w * h ≤ pixLen w h ∧ (pixLen w h = w * h → w % 8 = 0 ∧ h % 8 = 0) := pixLen_ge w h hw hh
-example : pixLen 17 9 = 384 ∧ pixLen 16 8 = 128 ∧ pixLen 1 1 = 64 := by decide
+/-- (3) DecodeSimple's grey row copy (fix 5946dc5): for Stride ≥ width every read is inside the `pixLen` bytes
+    image/jpeg's sub-image holds, every destination index is inside width·height, and distinct pixels go to
+    distinct destinations.  Regression anchor: before the fix the whole padded buffer was returned
+    (`pixLen 1 1 = 64` bytes for a 1×1 image). -/
+theorem c15_repack_tight (w h x y : Nat) (hx : x < w) (hy : y < h) :
+    repackSrc (8 * divCeil w 8) x y < pixLen w h ∧ repackDst w x y < w * h ∧
+    (∀ x' y', x' < w → y' < h → repackDst w x y = repackDst w x' y' → x = x' ∧ y = y') := by
+  have hw8 : w ≤ 8 * divCeil w 8 := by simp only [divCeil]; omega
+  have hh8 : h ≤ 8 * divCeil h 8 := by simp only [divCeil]; omega
+  refine ⟨?_, ?_, ?_⟩
+  · simp only [repackSrc, pixLen]
+    generalize 8 * divCeil w 8 = S at *
+    generalize 8 * divCeil h 8 = Hh at *
+    calc y * S + x < y * S + S := by omega
+      _ = (y + 1) * S := by rw [Nat.add_mul, Nat.one_mul]
+      _ ≤ Hh * S := Nat.mul_le_mul_right _ (by omega)
+      _ = S * Hh := Nat.mul_comm _ _
+  · simp only [repackDst]
+    calc y * w + x < y * w + w := by omega
+      _ = (y + 1) * w := by rw [Nat.add_mul, Nat.one_mul]
+      _ ≤ h * w := Nat.mul_le_mul_right _ hy
+      _ = w * h := Nat.mul_comm _ _
+  · intro x' y' hx' hy' he
+    simp only [repackDst] at he
+    have := offset_inj w x y x' y' hx hx' (by simp only [blockOffset]; omega)
+    exact this
+example : pixLen 1 1 = 64 ∧ repackDst 17 16 8 = 152 ∧ repackSrc 24 16 8 = 208 := by decide
 
 end JpegAddr
